@@ -518,6 +518,7 @@ func (g *Gen) DriveC01() {
 	}
 
 	g.NearNameSessions("near-name", c.N(40, 200))
+	g.DecoySessions("second-handler-in-the-process", c.N(12, 90))
 
 	// histories: honest runs interleaved with replays of earlier signatures and other strategies
 	for i := 0; i < c.N(40, 600); i++ {
@@ -703,6 +704,49 @@ func (g *Gen) DriveC02() {
 		g.Emit("request/fields", SessionSpec{Dir: dir, Store0: g.Store0(g.R.Intn(3)), Runs: runs, Reuse: g.R.Intn(3) != 0})
 	}
 	g.NearNameSessions("request/near-name", c.N(24, 120))
+	g.DecoySessions("request/second-handler-in-the-process", c.N(9, 60))
+}
+
+// DecoySessions: an unrelated second regular handler lives in the process (SessionSpec.Decoy).  The session's own
+// handlers still look up keys in their own directory (the holder of the key the DECOY's directory registers is refused),
+// still give their own lifetime, still send requests naming their own login name.
+func (g *Gen) DecoySessions(class string, n int) {
+	users := g.Pool.Users
+	decoyUser := users[len(users)-1]
+	for i := 0; i < n; i++ {
+		logname := LogNames[i%4]
+		user := users[i%(len(users)-1)]
+		dir := g.DirFor(logname, 1+i%2, user, user)
+		v := core.Pick(g.R, uint64(86400), 43200, 604800, 7200)
+		h := []HandlerSpec{g.Regular(u64(v), FullKeyIDs())}
+		var runs []RunSpec
+		switch i % 3 {
+		case 0: // the requester holds the registered key
+			runs = []RunSpec{g.honestRun(logname, user, h, OneCert()), g.honestRun(logname, user, h, []SOutSpec{{Kind: SigOk, Certs: []int{CertGood, CertGood}, Comments: []string{"a", "b"}}})}
+		case 1: // the requester holds the key the decoy's directory registers for the name
+			runs = []RunSpec{g.honestRun(logname, decoyUser, h, OneCert())}
+		default:
+			runs = []RunSpec{g.honestRun(logname, decoyUser, h, OneCert()), g.honestRun(logname, user, h, OneCert())}
+		}
+		g.Emit(class, SessionSpec{Dir: dir, Store0: g.Store0(g.R.Intn(2)), Runs: runs, Reuse: i%2 == 0, Decoy: true})
+	}
+}
+
+// CertWindowSessions: certificates whose validity window does not contain this host's clock (valid from the future, no
+// expiry, already expired, valid forever) are still what the CA returned: every one of them is handed to the agent.
+func (g *Gen) CertWindowSessions() {
+	users := g.Pool.Users
+	for _, w := range []struct {
+		name string
+		kind int
+	}{{"valid-from-the-future", CertFuture}, {"no-expiry", CertNoExpiry}, {"already-expired", CertExpired}, {"valid-forever", CertForever}} {
+		logname, user := "alice", users[0]
+		h := []HandlerSpec{g.Regular(u64(3600), FullKeyIDs())}
+		runs := []RunSpec{g.honestRun(logname, user, h, OneCert()),
+			g.honestRun(logname, user, h, []SOutSpec{{Kind: SigOk, Certs: []int{w.kind, CertGood, w.kind}, Comments: []string{"a", "", "b"}}}),
+			g.honestRun(logname, user, h, []SOutSpec{{Kind: SigOk, Certs: []int{w.kind}}})}
+		g.Emit("certificate-window/"+w.name, SessionSpec{Dir: g.DirFor(logname, 1, user, user), Store0: g.Store0(2), Runs: runs})
+	}
 }
 
 // ---------------------------------------------------------------- C03 ----
@@ -722,18 +766,8 @@ func (g *Gen) DriveC03() {
 			g.honestRun(logname, user, h, OneCert())}
 		g.Emit("nearmiss/two-generations", SessionSpec{Dir: g.DirFor(logname, 1, user, user), Store0: st, Runs: runs})
 	}
-	// certificates whose validity window does not contain this host's clock are still what the CA returned
-	for _, w := range []struct {
-		name string
-		kind int
-	}{{"valid-from-the-future", CertFuture}, {"no-expiry", CertNoExpiry}, {"already-expired", CertExpired}, {"valid-forever", CertForever}} {
-		logname, user := "alice", users[0]
-		h := []HandlerSpec{g.Regular(u64(3600), FullKeyIDs())}
-		runs := []RunSpec{g.honestRun(logname, user, h, OneCert()),
-			g.honestRun(logname, user, h, []SOutSpec{{Kind: SigOk, Certs: []int{w.kind, CertGood, w.kind}, Comments: []string{"a", "", "b"}}}),
-			g.honestRun(logname, user, h, []SOutSpec{{Kind: SigOk, Certs: []int{w.kind}}})}
-		g.Emit("certificate-window/"+w.name, SessionSpec{Dir: g.DirFor(logname, 1, user, user), Store0: g.Store0(2), Runs: runs})
-	}
+	g.CertWindowSessions()
+	g.DecoySessions("second-handler-in-the-process", g.C.N(9, 60))
 	// the CA's answer travels as in production: a CA server sends authorized_keys text, the RA's real crypki.Signer
 	// reads it - one, two or three certificates, the text with or without a final newline
 	for i, shape := range []struct {
@@ -812,6 +846,7 @@ func (g *Gen) c04Bases() []base {
 }
 
 func (g *Gen) DriveC04() {
+	g.CertWindowSessions()
 	users := g.Pool.Users
 	logname, user := "alice", users[0]
 	dir := g.DirFor(logname, 1, user, user)
